@@ -185,6 +185,41 @@ def analyse_save_rows(res: RuleResult, summ) -> None:
         raise AnalysisError(f"C12: only {failing} failing save paths for {ext}")
 
 
+def _mode_values(analysis: Analysis, mod, fn: str, mexpr, _depth: int = 0):
+    """(mode, function that chose it) pairs for the mode expression of an open() call in `fn`: a constant, or a
+    parameter of a private helper resolved at each of the helper's call sites (one level per step, depth <= 3)."""
+    if mexpr is None:
+        return [("r", fn)]
+    if isinstance(mexpr, ast.Constant):
+        return [(mexpr.value, fn)]
+    info = analysis.p.funcs.get(fn)
+    short = fn.split(".")[-1].split(":")[-1]
+    if isinstance(mexpr, ast.Name) and info is not None and _depth < 3 and short.startswith("_") and not short.startswith("__"):
+        params = [a.arg for a in info.node.args.posonlyargs + info.node.args.args]
+        kwonly = [a.arg for a in info.node.args.kwonlyargs]
+        if mexpr.id in params or mexpr.id in kwonly:
+            out = []
+            is_method = info.cls is not None and "staticmethod" not in info.decorators
+            for m2 in common.core_modules(analysis):
+                for c in ast.walk(m2.tree):
+                    if not (isinstance(c, ast.Call) and ((isinstance(c.func, ast.Name) and c.func.id == short) or (isinstance(c.func, ast.Attribute) and c.func.attr == short))):
+                        continue
+                    caller = common.func_of_node(analysis, m2, c)
+                    arg = next((k.value for k in c.keywords if k.arg == mexpr.id), None)
+                    if arg is None and mexpr.id in params:
+                        idx = params.index(mexpr.id) - (1 if is_method and isinstance(c.func, ast.Attribute) else 0)
+                        if 0 <= idx < len(c.args) and not any(isinstance(a, ast.Starred) for a in c.args[: idx + 1]):
+                            arg = c.args[idx]
+                    if arg is None:
+                        defaults = info.node.args.defaults
+                        di = params.index(mexpr.id) - (len(params) - len(defaults)) if mexpr.id in params else -1
+                        arg = defaults[di] if 0 <= di < len(defaults) else None
+                    out.extend(_mode_values(analysis, m2, caller, arg, _depth + 1) if arg is not None else [("?", caller)])
+            if out:
+                return out
+    return [("?", fn)]
+
+
 def open_modes(analysis: Analysis, res: RuleResult) -> None:
     mod = analysis.p.modules["persistence"]
     n = 0
@@ -192,11 +227,13 @@ def open_modes(analysis: Analysis, res: RuleResult) -> None:
         if isinstance(node, ast.Call) and (isinstance(node.func, ast.Name) and node.func.id == "open" or unparse(node.func) == "os.fdopen"):
             n += 1
             fn = common.func_of_node(analysis, mod, node)
-            mode = node.args[1].value if len(node.args) > 1 and isinstance(node.args[1], ast.Constant) else next((k.value.value for k in node.keywords if k.arg == "mode" and isinstance(k.value, ast.Constant)), "r" if len(node.args) < 2 else "?")
-            writing = any(ch in str(mode) for ch in "wax+?")
+            mexpr = node.args[1] if len(node.args) > 1 else next((k.value for k in node.keywords if k.arg == "mode"), None)
             savers = {q for q in analysis.p.funcs if q.split(".")[-1].startswith("_save_")}
-            ok = (writing and common.owned_by(analysis, fn, savers)) or (not writing)
-            res.add("C12-R1", f"{fn} / open mode {mode!r}", ok, common.where(analysis, mod, node), "write modes only in the _save_* helpers, which receive the temp name" if ok else "a file is opened for writing outside the _save_* helpers")
+            for mode, owner in _mode_values(analysis, mod, fn, mexpr):
+                writing = any(ch in str(mode) for ch in "wax+?")
+                ok = (writing and common.owned_by(analysis, owner, savers)) or (not writing)
+                via = "" if owner == fn else f" (mode passed by {owner})"
+                res.add("C12-R1", f"{fn} / open mode {mode!r}{via}", ok, common.where(analysis, mod, node), "write modes only in the _save_* helpers, which receive the temp name" if ok else "a file is opened for writing outside the _save_* helpers")
     if n < 2:
         raise AnalysisError(f"C12-R1: only {n} open() calls found in persistence.py")
     # _save_* helpers are only reached through save_sensors -> _perform_file_action(tmp, "save")
